@@ -407,11 +407,17 @@ func (s *State) evalMapLiteral(node *ast.MapLiteral) object.Object {
 	for _, keyNode := range node.Order {
 		valueNode := node.Pairs[keyNode]
 		key := s.Eval(keyNode)
+		if key.Type() == object.ERROR {
+			return key // errors (including deadline/cancellation) abort the literal, like in array literals.
+		}
 		if !object.Equals(key, key) {
 			log.Warnf("key %s is not hashable", key.Inspect())
 			return s.NewError("key " + key.Inspect() + " is not hashable")
 		}
 		value := s.Eval(valueNode)
+		if value.Type() == object.ERROR {
+			return value
+		}
 		result = result.Set(object.CopyRegister(key), object.CopyRegister(value))
 	}
 	return result
